@@ -139,7 +139,7 @@ TReset ==
              ranges |-> {[g |-> r[1], lo |-> r[2], hi |-> r[3]] : r \in SeqSet(Ev.ranges)}]
   /\ port' = [c \in Gpus |-> NoPorts]
   /\ tab' = [c \in Gpus |-> [ins |-> <<>>, outs |-> <<>>]]
-  /\ ctl' = [c \in Gpus |-> [draining |-> FALSE, paused |-> FALSE, src |-> NoPort]]
+  /\ ctl' = [c \in Gpus |-> NoCtl]
   /\ env' = [nreq |-> {}, nrsp |-> {}, l2 |-> {}, phase |-> [c \in Gpus |-> "run"], nDrain |-> 0]
   /\ used' = {}
   /\ h' = NoHist
